@@ -1242,6 +1242,12 @@ func c04HandPicked(c *Ctx) []string {
 		strings.Repeat("[", 50) + strings.Repeat("]", 49),
 		strings.Repeat("[", 49) + strings.Repeat("]", 50),
 	}
+	// the 16-bit length limit: strings and names of 32767 / 32768 / 65536 bytes, bare and quoted, at the top level,
+	// in a list, as a compound value and as a compound name
+	for _, n := range []int{32767, 32768, 65536} {
+		a := strings.Repeat("a", n)
+		l = append(l, a, `"`+a+`"`, "["+a+",b]", "[b,"+a+"]", "{k:"+a+"}", "{"+a+":1b}", `{"`+a+`":[]}`, "{"+a+":{}}", "{"+a+":[I;1]}")
+	}
 	if c.Thorough() {
 		l = append(l,
 			strings.Repeat("[", 10001)+strings.Repeat("]", 10001),
